@@ -32,6 +32,9 @@ func (c06) Assumptions() []string {
 }
 
 func (c06) Run(c *fw.Case) {
+	if c.Idx%6 == 5 {
+		failedCalls(c) // call history: failed calls before the case must leave nothing behind
+	}
 	r := c.R
 	u := gen.NewDynUniverse(r)
 	mc := &modelCase{draft: refmodel.D2020, rootText: u.Root, baseURI: u.BaseURI, docs: u.Docs}
